@@ -752,6 +752,16 @@ func (b *BlockWise[C]) processReceivedMessage(w *responsewriter.ResponseWriter[C
 	block, err := r.GetOptionUint32(blockType)
 	if err != nil {
 		if errors.Is(err, message.ErrOptionNotFound) {
+			if blockType == message.Block1 {
+				// A POST/PUT that only asks for a later block of its response, while that response is no
+				// longer held (e.g. a duplicated continuation after the exchange has completed), must
+				// not be executed again - with an empty body.
+				if block2, errB2 := r.GetOptionUint32(message.Block2); errB2 == nil {
+					if _, num2, _, errD := DecodeBlockOption(block2); errD == nil && num2 > 0 {
+						return errors.New("cannot continue response: it is no longer held")
+					}
+				}
+			}
 			next(w, r)
 			return nil
 		}
@@ -785,6 +795,12 @@ func (b *BlockWise[C]) processReceivedMessage(w *responsewriter.ResponseWriter[C
 		szx = getSzx(szx, maxSzx)
 		// if there is no more then just forward req to next handler
 		if !more {
+			if blockType == message.Block1 && num > 0 {
+				// The final block of a request body whose earlier blocks are not (or no longer) held,
+				// e.g. a duplicate that arrives after the transfer has completed. Handing it on would
+				// present this one block to the application as a complete request.
+				return errors.New("cannot complete request body: preceding blocks are missing")
+			}
 			next(w, r)
 			return nil
 		}
